@@ -17,6 +17,9 @@ func (c *Ctx) lockControls() {
 	}, true)
 	c.lockOrderRules("ctl", func(fn *ssa.Function) bool { return strings.HasPrefix(PkgPathOf(fn), PkgCtl+"/locks") },
 		[]string{"locks.BadBroker.lock", "locks.GoodBroker.lock"}, []string{PkgRoot}, true, nil)
+	c.ruleWaitGroupFields("ctl.wgfield", true)
+	c.R.WantControl("ctl.wgfield")
+	c.recoverControls()
 	c.R.WantControl("ctl.guard")
 	c.R.WantControl("ctl.pairing")
 	c.R.WantControl("ctl.self")
@@ -25,7 +28,7 @@ func (c *Ctx) lockControls() {
 
 func runC04(c *Ctx) {
 	r := c.R
-	r.Explanation = "Decides the race-freedom clause of C04 as a pairwise consistent-lock-set discipline over every field of Broker, graph and nodeUsage (every write/access pair shares a lock held for writing at the write), immutability after publication of registeredPipeline and linkedNode, confinement of the sync.Map to graphMap's methods, and lock pairing in the root package. It does not decide the linearizability / delivery-count clause (a statement about histories of sync.Map under real interleavings). C04.section: all broker-state accesses of a mutating call lie in one critical section of Broker.lock (check-then-act atomicity). C04.copy: no second holder of the pipeline set is written outside Broker.lock:W (a reader-side cache can overwrite a newer invalidation). C04.self/order/open: the lock-order rules of C12 over the root package (a re-acquired RWMutex wedges all callers). C04.nocopy: no by-value receiver, parameter, result or dereference copy of a type that contains a sync primitive (copylocks is not among the analyzers go test runs)."
+	r.Explanation = "Decides the race-freedom clause of C04 as a pairwise consistent-lock-set discipline over every field of Broker, graph and nodeUsage (every write/access pair shares a lock held for writing at the write), immutability after publication of registeredPipeline and linkedNode, confinement of the sync.Map to graphMap's methods, and lock pairing in the root package. It does not decide the linearizability / delivery-count clause (a statement about histories of sync.Map under real interleavings). C04.section: all broker-state accesses of a mutating call lie in one critical section of Broker.lock (check-then-act atomicity). C04.copy: no second holder of the pipeline set is written outside Broker.lock:W (a reader-side cache can overwrite a newer invalidation). C04.self/order/open: the lock-order rules of C12 over the root package (a re-acquired RWMutex wedges all callers). C04.nocopy: no by-value receiver, parameter, result or dereference copy of a type that contains a sync primitive (copylocks is not among the analyzers go test runs). C04.wgfield: a sync.WaitGroup held in a field of a shared object has every Add and Wait under a common lock."
 	r.NotDecided = []string{"linearizability of registration for Send and per-pipeline delivery counts", "absence of panics"}
 	c.lockControls()
 
@@ -115,6 +118,7 @@ func runC04(c *Ctx) {
 
 	c.pairingRule("C04.pairing", func(fn *ssa.Function) bool { return PkgPathOf(fn) == PkgRoot }, false)
 	c.ruleNoLockCopy("C04.nocopy")
+	c.ruleWaitGroupFields("C04.wgfield", false)
 	r.Floor("C04.pairing", 10)
 
 	// concurrent callers can only quiesce if no broker call re-acquires a lock it may hold (a second
